@@ -212,6 +212,22 @@ def gen():
             return ("pub fn f(world: &mut World<Reg, Resources!(R1, %s)>) { let res = world.par_query(Query::<Views!(&A), filter::None, Views!(%s)>::new()); let result!(x) = res.resources; res.iter.for_each(|result!(a)| touch(&a.0)); touch(x); }") % (r, vt(k, r))
         add("f7_par_query_res_%s_twin" % k, "F7 par_query with resource views twin", mk4("OK"), "accept", "par_query with Arc resource view")
 
+    for k in "rw":
+        def mk5(c, k=k):
+            r = "RNS" if c == "NS" else "ROK"
+            return "pub fn f(world: &mut World<Reg, Resources!(R1, %s)>) { let res = world.par_query(Query::<Views!(&A), filter::None, Views!(%s)>::new()); let result!(x) = res.resources; res.iter.for_each(|result!(a)| { touch(&a.0); touch(&x.0); }); }" % (r, vt(k, r))
+        add("f7_par_query_res_used_%s_ns" % k, "F7 par_query closure uses a resource view", mk5("NS"), "reject" if k == "r" else "dontcare", "resource view (%s) of an Rc resource captured by the parallel closure" % k)
+    # whole query result and world entries sent to another thread
+    thread_prog("f7_result_whole", "F7 send a whole query result to a thread",
+                lambda c: "pub fn f(world: &mut World<Registry!(A, %s)>) { let res = world.query(Query::<Views!(&%s), filter::None, Views!(), Views!(&A)>::new()); std::thread::scope(|s| { s.spawn(move || { let res = res; for result!(x) in res.iter { touch(x); } }); }); }" % (c, c),
+                "query::Result moved to a scoped thread")
+    thread_prog("f7_world_entry", "F7 send a world entry to a thread",
+                lambda c: "pub fn f(world: &mut World<Registry!(A, %s)>, id: entity::Identifier) { let mut e = world.entry(id).unwrap(); std::thread::scope(|s| { s.spawn(move || { if let Some(result!(x)) = e.query(Query::<Views!(&%s)>::new()) { touch(x); } }); }); }" % (c, c),
+                "world::Entry moved to a scoped thread")
+    thread_prog("f7_par_system_field", "F7 run_par_system with captured state",
+                lambda c: "pub fn f(world: &mut World<Registry!(A, %s)>) { let shared = %s; world.par_query(Query::<Views!(&A)>::new()).iter.for_each(|result!(a)| { touch(&a.0); touch(&shared); }); }" % (c, "Rc::new(1u32)" if c == "NS" else "Arc::new(1u32)"),
+                "non-Sync state captured by a parallel query closure")
+
     def system_prog(par, views, resv, entv, field, reg, res):
         trait, itb = ("ParSystem", "ParallelIterator") if par else ("System", "Iterator")
         return ("pub struct S(%s); impl %s for S { type Views<'a> = %s; type Filter = filter::None; type ResourceViews<'a> = %s; type EntryViews<'a> = %s;\n"
